@@ -10,6 +10,8 @@ pub const EDIT_KINDS: &[&str] = &[
     "delete_line",
     "duplicate_line",
     "swap_lines",
+    "swap_adjacent_lines",
+    "swap_adjacent_items",
     "rename_def_only",
     "rename_everywhere",
     "change_literal",
@@ -208,6 +210,40 @@ pub fn apply(kind: &str, cur: &str, rng: &mut Rng) -> Option<String> {
             }
             lines.swap(i, j);
             Some(join(&lines))
+        }
+        "swap_adjacent_lines" => {
+            // Re-orders struct members, enum variants, statements, parameters on their own lines...
+            let cands: Vec<usize> = (0..n.saturating_sub(1))
+                .filter(|i| !lines[*i].trim().is_empty() && !lines[*i + 1].trim().is_empty() && lines[*i] != lines[*i + 1])
+                .filter(|i| {
+                    let ind = |l: &String| l.len() - l.trim_start().len();
+                    ind(&lines[*i]) == ind(&lines[*i + 1]) && ind(&lines[*i]) > 0
+                })
+                .collect();
+            if cands.is_empty() {
+                return None;
+            }
+            let i = cands[rng.below(cands.len())];
+            lines.swap(i, i + 1);
+            Some(join(&lines))
+        }
+        "swap_adjacent_items" => {
+            let items = top_level_items(&lines);
+            if items.len() < 2 {
+                return None;
+            }
+            let k = rng.below(items.len() - 1);
+            let (a0, a1) = items[k];
+            let (b0, b1) = items[k + 1];
+            if b0 <= a1 {
+                return None;
+            }
+            let mut out: Vec<String> = lines[..a0].to_vec();
+            out.extend_from_slice(&lines[b0..=b1]);
+            out.extend_from_slice(&lines[a1 + 1..b0]);
+            out.extend_from_slice(&lines[a0..=a1]);
+            out.extend_from_slice(&lines[b1 + 1..]);
+            Some(join(&out))
         }
         "rename_def_only" => {
             let defs = defined_idents(cur);
